@@ -10,6 +10,9 @@ import Driver.V1
 import Driver.Sched
 import Driver.Invoke
 import Driver.ModStoreDrv
+import Driver.Builtins
+import Driver.Enc
+import Driver.EvalDrv
 open Driver
 
 /-- a trailing field starting with '#' carries human-readable context and is ignored -/
@@ -22,6 +25,7 @@ def dispatch (line : String) : String :=
   match stripComment (line.splitOn "\t") with
   | "noop" :: _ => "ok"
   | "ops" :: args => handleOps args
+  | "unop" :: args => handleUnop args
   | "vm" :: args => handleVM args
   | "json" :: args => handleJson args
   | "symops" :: args => handleSymops args
@@ -34,6 +38,10 @@ def dispatch (line : String) : String :=
   | "sched" :: args => handleSched args
   | "inv" :: args => handleInv args
   | "ms" :: args => handleMs args
+  | "bi" :: args => handleBuiltins args
+  | "enc" :: args => EncDrv.handleEnc args
+  | "dec" :: args => EncDrv.handleDec args
+  | "eval" :: args => handleEval args
   | _ => "bad-op"
 
 partial def loop (h : IO.FS.Stream) (out : IO.FS.Stream) : IO Unit := do
